@@ -111,3 +111,49 @@ Theorem C11_example :
   reachable istR /\ Qred (effective_priority istR 0) = 0%Q.
 Proof. exact C11_example_thm. Qed.
 Print Assumptions C11_example.
+
+(* ------------------------------------------------------------------------------------------
+   Appended: the bookkeeping of the wait-for graph is consistent in every reachable state
+   (Sched/WaitInv.v, WaitOps.v, WaitLib.v, WaitProofs.v: a second invariant [WInv] proved
+   through every action jointly with the C13 invariant; Sched/WaitThms.v: corollaries).
+   [lwt (getl s l)] is lock l's table of rows (waiter future, task); [tframes s t] the stack of
+   library frames of the suspended task t; [InAcquireP l f had] the frame of
+   PriorityLock.acquire suspended in `await fut`.  [reachable_ne s]: s is reached by a run
+   that satisfies run_ok and in which no eager start ([Spawn SEager], asynkit.eager: the
+   coroutine's first part runs under the identity of the creating task) is executed
+   ([run_ne], checked along the run like run_ok).
+   - ownership (C13): a held lock's owner is the holder; a PriorityTask owner records it;
+   - each lock's rows are exactly its queued futures, once each, and name existing tasks;
+   - a PriorityTask with a row in l has _waiting_on = l and no other row anywhere;
+   - every row has exactly one suspended acquire frame (had = the row's task is a PriorityTask);
+   - without eager starts: for a PriorityTask, _waiting_on = l IFF it has a row in l, and the
+     task of every row is itself suspended (TSusp) inside acquire() of that lock on that future,
+     which is still queued.
+   With eager starts the converse fails (a PriorityTask parent keeps _waiting_on after the
+   continuation task has left the queue: the real code does the same).  "The task is not done"
+   is NOT an invariant of the model: user code can complete a task's future with
+   OSetResult / OFutCancel while the task is suspended. *)
+From Asynkit Require Import Sched.WaitInv Sched.WaitProofs Sched.WaitThms.
+
+Theorem C11_graph_consistent :
+  forall s, reachable s ->
+    (forall l t, l < length (locks s) -> In l (tholding (gett s t)) -> lowner (getl s l) = Some t) /\
+    (forall l t, lowner (getl s l) = Some t -> is_prio_task s t = true -> In l (tholding (gett s t))) /\
+    (forall l, NoDup (map fst (lwt (getl s l))) /\
+               Permutation (map fst (lwt (getl s l))) (pq_objs (lpq (getl s l))) /\
+               (forall f t, In (f, t) (lwt (getl s l)) -> t < length (tasks s))) /\
+    (forall l f t, In (f, t) (lwt (getl s l)) -> is_prio_task s t = true ->
+       twaiting (gett s t) = Some l /\
+       (forall l' f', In (f', t) (lwt (getl s l')) -> l' = l /\ f' = f)) /\
+    (forall l f u, In (f, u) (lwt (getl s l)) ->
+       exists t had, In (InAcquireP l f had) (tframes s t) /\ had = is_prio_task s u /\
+                     (is_prio_task s t = true -> u = t)) /\
+    (reachable_ne s ->
+       (forall t l, is_prio_task s t = true ->
+          (twaiting (gett s t) = Some l <-> exists f, In (f, t) (lwt (getl s l)))) /\
+       (forall l f t, In (f, t) (lwt (getl s l)) ->
+          exists frs k, tcont_ (gett s t) = TSusp frs k /\
+                        In (InAcquireP l f (is_prio_task s t)) frs /\
+                        In f (pq_objs (lpq (getl s l))))).
+Proof. exact graph_consistent_full. Qed.
+Print Assumptions C11_graph_consistent.
